@@ -421,6 +421,8 @@ theorem apply_wf {s : State} (h : WF s) (o : Op) : WF (apply s o) := by
   | fail m => simp only [apply]; rw [fail_spec]; exact localOp_wf freshOk_fail h m
   | refute m i => simp only [apply]; rw [refute_spec]; exact localOp_wf (freshOk_refute i) h m
   | markHealthy m => simp only [apply]; rw [markHealthy_spec]; exact localOp_wf freshOk_markHealthy h m
+  | tick => exact fun m e he => Nat.le_trans (h m e he) (Nat.le_succ _)
+  | syncTime t => exact fun m e he => Nat.le_trans (h m e he) (by simp only [apply, syncTime]; omega)
 
 theorem run_wf {s : State} (h : WF s) (ops : List Op) : WF (run s ops) := by
   induction ops generalizing s with
@@ -447,6 +449,8 @@ theorem apply_join {s : State} (hwf : WF s) (o : Op) (hok : OpOk s o) (m : Nat) 
   | fail m' => simp only [apply, emitted]; rw [fail_spec]; exact localOp_join freshOk_fail hwf m' m
   | refute m' i => simp only [apply, emitted]; rw [refute_spec]; exact localOp_join (freshOk_refute i) hwf m' m
   | markHealthy m' => simp only [apply, emitted]; rw [markHealthy_spec]; exact localOp_join freshOk_markHealthy hwf m' m
+  | tick => rfl
+  | syncTime t => rfl
 
 theorem run_join {s : State} (hwf : WF s) (ops : List Op) (hadm : Admissible s ops) (m : Nat) :
     (run s ops).regs m = joinList (s.regs m) (forMember m (seen s ops)) := by
